@@ -144,6 +144,41 @@ def run(ctx):
              'between evaluating in_flight >= limit and refusing the request read next, nothing retires a request', v.get('REFUSED_UNDER_STALE_GUARD', []),
              'the inner poll_next may retire requests (Cancel message, expiry, guard queue) before yielding the request that is then refused')
 
+    # ------------------------------------------------------------------ the limit compared is the limit the user asked for (E-PROV)
+    def limit_identity(adt_suffix, field, seen=()):
+        """every construction site of the limiter stores, unchanged, a parameter of a public function or the limit field of another limiter"""
+        aggs = list(F.all_aggregates(adt_suffix))
+        if not aggs:
+            raise CannotDecide('no construction site of %s' % adt_suffix)
+        for f, i, j, s_ in aggs:
+            rs = P.root(P._field(('agg', f.id, i, j), field), through_params=True)
+            ok, det = bool(rs), []
+            for r, p in rs:
+                vp = norm_path(p)
+                det.append(P.describe(r) + str(list(vp)))
+                if r[0] != 'param':
+                    ok = False
+                    continue
+                if not vp:
+                    continue   # the caller's own argument, unchanged
+                if len(vp) == 1 and vp[0][0] == 'f':
+                    owner = strip_refs_pin(F.fns[r[1]].local_ty(r[2]))
+                    if owner and (owner, vp[0][1]) not in seen and F.adts.get(owner.split('<')[0]) is not None and [x for x in F.adts[owner.split('<')[0]]['variants'][0]['fields'] if x[0] == vp[0][1] and x[1] == 'usize']:
+                        limit_identity(owner.split('<')[0], vp[0][1], seen + ((owner, vp[0][1]),))
+                        continue
+                ok = False
+            R.ob('C12.limit', (F.enclosing_item(f).npath, 'limit stored unchanged'), ok,
+                 'the limit a limiter enforces is the caller\'s argument itself (for every L >= 0, including 0): no arithmetic, clamp or constant on the way from the public constructor to the comparison',
+                 [f.loc(s_)], '; '.join(det))
+
+    def strip_refs_pin(ty):
+        from engine.facts import strip_refs, ty_head
+        ty = strip_refs(ty)
+        while ty.startswith('std::pin::Pin<'):
+            ty = strip_refs(ty_head(ty)[1][0])
+        return ty
+    limit_identity('requests_per_channel::MaxRequests', lim_field)
+
     # ------------------------------------------------------------------ reply content (E-PROV)
     sends = [(g, bb, t) for g in reachable_local_fns(F, mr, depth=2) for bb, t in g.calls() if callee_is(t, 'Sink::start_send')
              and 'requests_per_channel' in g.id and not (g.impl_of and (g.impl_of.get('trait') or '').split('<')[0].endswith('Sink'))]
